@@ -891,3 +891,215 @@ Proof.
   intros H. rewrite tail_spec by lia.
   replace (length (xruns xact l) - Z.to_nat n)%nat with 0%nat by lia. apply xruns_concat.
 Qed.
+
+(* ====================================================================================== *)
+(* 4. regrouping handlers: every group is the exact per-commodity sum of its members      *)
+(* ====================================================================================== *)
+From Coq Require Import Lqa.
+
+(* the exact quantity of commodity c in the amounts of a list of postings *)
+Fixpoint sum_den (l : list post) (c : option comm) : Q :=
+  match l with
+  | [] => 0
+  | p :: l' => den (pamt p) c + sum_den l' c
+  end.
+
+Lemma sum_den_app l1 l2 c : (sum_den (l1 ++ l2) c == sum_den l1 c + sum_den l2 c)%Q.
+Proof. induction l1 as [|p l1 IH]; cbn [sum_den app]; [lra|]. rewrite IH. lra. Qed.
+
+Lemma sum_den_perm l1 l2 c : Permutation l1 l2 -> (sum_den l1 c == sum_den l2 c)%Q.
+Proof.
+  induction 1; cbn [sum_den]; try lra.
+Qed.
+
+(* ---- subtotal_posts ---- *)
+Definition acct_is (k : str) (p : post) : bool := str_eqb (pacct p) k.
+
+(* what the map holds under key k / in all entries *)
+Fixpoint vm_at (k : str) (m : values_map) (c : option comm) : Q :=
+  match m with
+  | [] => 0
+  | e :: m' => (if str_eqb (fst e) k then den (fst (snd e)) c else 0) + vm_at k m' c
+  end.
+
+Fixpoint vm_total (m : values_map) (c : option comm) : Q :=
+  match m with
+  | [] => 0
+  | e :: m' => den (fst (snd e)) c + vm_total m' c
+  end.
+
+Definition str_lt (a b : str) : Prop := str_compare a b = Lt.
+
+Lemma str_compare_eq_eqb a b : str_compare a b = Eq -> str_eqb a b = true.
+Proof. intros H. apply str_compare_eq in H. subst. apply str_eqb_refl. Qed.
+
+Lemma str_compare_ne_eqb a b : str_compare a b <> Eq -> str_eqb a b = false.
+Proof.
+  intros H. destruct (str_eqb a b) eqn:E; [|reflexivity].
+  apply str_eqb_spec in E. subst. now rewrite str_compare_refl in H.
+Qed.
+
+Lemma str_eqb_sym a b : str_eqb a b = str_eqb b a.
+Proof.
+  destruct (str_eqb a b) eqn:E.
+  - apply str_eqb_spec in E. subst. now rewrite str_eqb_refl.
+  - destruct (str_eqb b a) eqn:F; [|reflexivity]. apply str_eqb_spec in F. subst.
+    now rewrite str_eqb_refl in E.
+Qed.
+
+Lemma sub_insert_at k v virt m m' k0 c :
+  sub_insert k v virt m = Ok m' ->
+  (vm_at k0 m' c == vm_at k0 m c + (if str_eqb k k0 then den v c else 0))%Q.
+Proof.
+  revert m'. induction m as [|[k' [v' virt']] m IH]; intros m' H; cbn [sub_insert] in H.
+  - injection H as <-. cbn [vm_at fst snd]. lra.
+  - destruct (str_compare k k') eqn:E.
+    + destruct (Bool.eqb virt virt'); [|discriminate].
+      destruct (v_add false v' v) as [s|] eqn:A; cbn [bind] in H; [|discriminate].
+      injection H as <-. cbn [vm_at fst snd].
+      pose proof (v_add_exact _ _ _ _ c A) as D.
+      apply str_compare_eq in E. subst k'.
+      destruct (str_eqb k k0); lra.
+    + injection H as <-. cbn [vm_at fst snd]. destruct (str_eqb k k0), (str_eqb k' k0); lra.
+    + destruct (sub_insert k v virt m) as [r|] eqn:R; cbn [bind] in H; [|discriminate].
+      injection H as <-. cbn [vm_at fst snd]. rewrite (IH r eq_refl). lra.
+Qed.
+
+Lemma sub_insert_total k v virt m m' c :
+  sub_insert k v virt m = Ok m' -> (vm_total m' c == vm_total m c + den v c)%Q.
+Proof.
+  revert m'. induction m as [|[k' [v' virt']] m IH]; intros m' H; cbn [sub_insert] in H.
+  - injection H as <-. cbn [vm_total fst snd]. lra.
+  - destruct (str_compare k k') eqn:E.
+    + destruct (Bool.eqb virt virt'); [|discriminate].
+      destruct (v_add false v' v) as [s|] eqn:A; cbn [bind] in H; [|discriminate].
+      injection H as <-. cbn [vm_total fst snd].
+      pose proof (v_add_exact _ _ _ _ c A) as D. lra.
+    + injection H as <-. cbn [vm_total fst snd]. lra.
+    + destruct (sub_insert k v virt m) as [r|] eqn:R; cbn [bind] in H; [|discriminate].
+      injection H as <-. cbn [vm_total fst snd]. rewrite (IH r eq_refl). lra.
+Qed.
+
+Lemma sub_insert_keys k v virt m m' :
+  sub_insert k v virt m = Ok m' ->
+  (forall k0, In k0 (map fst m') <-> k0 = k \/ In k0 (map fst m)) /\
+  (StronglySorted str_lt (map fst m) -> StronglySorted str_lt (map fst m')).
+Proof.
+  revert m'. induction m as [|[k' [v' virt']] m IH]; intros m' H; cbn [sub_insert] in H.
+  - injection H as <-. cbn. split; [intros; intuition congruence|]. intros _. constructor; constructor.
+  - destruct (str_compare k k') eqn:E.
+    + destruct (Bool.eqb virt virt'); [|discriminate].
+      destruct (v_add false v' v) as [s|] eqn:A; cbn [bind] in H; [|discriminate].
+      injection H as <-. apply str_compare_eq in E. subst k'. cbn [map fst]. split.
+      * intros k0. cbn [In]. intuition.
+      * trivial.
+    + injection H as <-. cbn [map fst]. split.
+      * intros k0. cbn [In]. intuition.
+      * intros S. constructor; [exact S|]. inversion S as [|? ? S' M]; subst.
+        constructor; [exact E|]. rewrite Forall_forall in *. intros z Hz.
+        eapply str_compare_trans; [exact E | now apply M].
+    + destruct (sub_insert k v virt m) as [r|] eqn:R; cbn [bind] in H; [|discriminate].
+      injection H as <-. destruct (IH r eq_refl) as [IK IS]. cbn [map fst]. split.
+      * intros k0. cbn [In]. rewrite IK. intuition.
+      * intros S. inversion S as [|? ? S' M]; subst. constructor; [now apply IS|].
+        rewrite Forall_forall in *. intros z Hz. apply IK in Hz. destruct Hz as [->|Hz].
+        -- unfold str_lt. rewrite str_compare_antisym, E. reflexivity.
+        -- now apply M.
+Qed.
+
+Lemma post_amount_ok p a : post_amount p = Ok a -> a = pamt p.
+Proof. unfold post_amount. destruct (pamt p); try discriminate. now intros [= <-]. Qed.
+
+Lemma sub_feed_spec l : forall m m',
+  sub_feed m l = Ok m' ->
+  (forall k c, (vm_at k m' c == vm_at k m c + sum_den (filter (acct_is k) l) c)%Q) /\
+  (forall c, (vm_total m' c == vm_total m c + sum_den l c)%Q) /\
+  (forall k, In k (map fst m') <-> In k (map fst m) \/ exists p, In p l /\ pacct p = k) /\
+  (StronglySorted str_lt (map fst m) -> StronglySorted str_lt (map fst m')).
+Proof.
+  induction l as [|p l IH]; intros m m' H; cbn [sub_feed] in H.
+  - injection H as <-. cbn [filter sum_den]. repeat split; intros; try lra; try tauto.
+    + destruct H as [H|(p & [] & _)]. exact H.
+  - destruct (post_amount p) as [a|] eqn:PA; cbn [bind] in H; [|discriminate].
+    apply post_amount_ok in PA. subst a.
+    destruct (sub_insert (pacct p) (pamt p) (pvirt p) m) as [m1|] eqn:I; cbn [bind] in H; [|discriminate].
+    destruct (IH m1 m' H) as (A1 & A2 & A3 & A4).
+    destruct (sub_insert_keys _ _ _ _ _ I) as [K1 K2].
+    repeat split.
+    + intros k c. rewrite A1, (sub_insert_at _ _ _ _ _ k c I). cbn [filter]. unfold acct_is at 2.
+      destruct (str_eqb (pacct p) k); cbn [sum_den]; lra.
+    + intros c. rewrite A2, (sub_insert_total _ _ _ _ _ c I). cbn [sum_den]. lra.
+    + rewrite A3, K1. intros [[->|H1]|(q & Hq & E)].
+      * right. exists p. split; [now left|reflexivity].
+      * now left.
+      * right. exists q. split; [now right|exact E].
+    + rewrite A3, K1. intros [H1|(q & [->|Hq] & E)].
+      * left. now right.
+      * left. now left.
+      * right. exists q. split; assumption.
+    + intros S. apply A4, K2, S.
+Qed.
+
+Lemma vm_at_absent k (m : values_map) c : ~ In k (map fst m) -> (vm_at k m c == 0)%Q.
+Proof.
+  induction m as [|e m IH]; intros H; cbn [vm_at]; [lra|].
+  cbn [map In] in H. destruct (str_eqb (fst e) k) eqn:E.
+  - apply str_eqb_spec in E. tauto.
+  - rewrite IH by tauto. lra.
+Qed.
+
+Lemma str_lt_irrefl a : ~ str_lt a a.
+Proof. unfold str_lt. now rewrite str_compare_refl. Qed.
+
+Lemma sorted_not_in k (ks : list str) :
+  Forall (str_lt k) ks -> ~ In k ks.
+Proof.
+  intros F H. rewrite Forall_forall in F. apply (str_lt_irrefl k). now apply F.
+Qed.
+
+Lemma vm_at_entry (m : values_map) : StronglySorted str_lt (map fst m) ->
+  forall e c, In e m -> (vm_at (fst e) m c == den (fst (snd e)) c)%Q.
+Proof.
+  induction m as [|e0 m IH]; intros S e c H; [destruct H|].
+  cbn [map] in S. inversion S as [|? ? S' M]; subst. cbn [vm_at]. destruct H as [->|H].
+  - rewrite str_eqb_refl. rewrite (vm_at_absent _ _ _ (sorted_not_in _ _ M)). lra.
+  - assert (str_eqb (fst e0) (fst e) = false) as ->.
+    { apply str_compare_ne_eqb. rewrite Forall_forall in M.
+      assert (str_lt (fst e0) (fst e)) as L by (apply M; now apply in_map).
+      unfold str_lt in L. congruence. }
+    rewrite (IH S' e c H). lra.
+Qed.
+
+Lemma vm_total_report py xid comps m c :
+  (sum_den (sub_report py xid comps m) c == vm_total m c)%Q.
+Proof.
+  unfold sub_report. induction m as [|e m IH]; cbn [map sum_den vm_total pamt]; [lra|].
+  rewrite IH. lra.
+Qed.
+
+(* subtotal_posts on the component posts `comps`: one row per account, in account order;
+   each row is the exact sum of the postings to that account; the total is preserved *)
+Theorem subtotal_group_sums py xid comps rows :
+  subtotal_group py xid comps = Ok rows ->
+  StronglySorted str_lt (map pacct rows) /\
+  (forall a, In a (map pacct rows) <-> exists p, In p comps /\ pacct p = a) /\
+  (forall r c, In r rows -> (den (pamt r) c == sum_den (filter (acct_is (pacct r)) comps) c)%Q) /\
+  (forall c, (sum_den rows c == sum_den comps c)%Q).
+Proof.
+  unfold subtotal_group. destruct comps as [|p0 comps0] eqn:EC.
+  - intros [= <-]. cbn. repeat split; try constructor; intros; try lra; try tauto.
+    + destruct H as (p & [] & _).
+  - rewrite <- EC. clear EC p0 comps0.
+    destruct (sub_feed [] comps) as [m|] eqn:F; cbn [bind]; [|discriminate].
+    intros [= <-]. destruct (sub_feed_spec comps [] m F) as (A1 & A2 & A3 & A4).
+    assert (S : StronglySorted str_lt (map fst m)) by (apply A4; constructor).
+    assert (MP : map pacct (sub_report (py comps) xid comps m) = map fst m).
+    { unfold sub_report. rewrite map_map. reflexivity. }
+    repeat split.
+    + now rewrite MP.
+    + rewrite MP, A3. cbn [map In]. tauto.
+    + rewrite MP, A3. cbn [map In]. tauto.
+    + intros r c Hr. unfold sub_report in Hr. apply in_map_iff in Hr. destruct Hr as (e & <- & He).
+      cbn [pamt pacct]. rewrite <- (vm_at_entry m S e c He), A1. cbn [vm_at]. lra.
+    + intros c. rewrite vm_total_report, A2. cbn [vm_total]. lra.
+Qed.
